@@ -19,6 +19,10 @@ from .c13 import validate_fri_trace
 P = 18446744069414584321
 
 
+# hint sites outside GlGadgets' four inside this code region are probed with generic alternatives after run() (bin/check, common.Ctx.foreign)
+FOREIGN = (("assertLeadingZeros", "GetFriChallenges"), ("testdata",))
+
+
 def run(ctx):
     ctx.rule = ("gadget: difficulty b x response in {0, 2^(64-b)-1, 2^(64-b), 2^(64-b)+1, p-1, seeded} x mode; witness: +1, -1, 0, 1, p-1 and seeded "
                 "witnesses substituted into real proofs (k=1); distinct = distinct (mode, b, response) / (instance, witness)")
